@@ -111,6 +111,19 @@ def near_duplicate_pool():
     for name in sorted(col):
         for a, b in col[name]:
             out += [a.encode(), b.encode()]
+    # collisions that are equalities over the integers, hence under a polynomial hash h*k + c of *any* word size (a 64-bit djb2 never
+    # wraps on short addresses, so the 32-bit pairs above do not collide there): (c1, c2) and (c1 + 1, c2 - k) at adjacent positions
+    for k in (31, 33, 37):
+        for bad in b"(,; <":
+            c2 = bad + k
+            if not (0x41 <= c2 <= 0x5a or 0x61 <= c2 <= 0x7a):
+                continue
+            for pre, suf in ((b"", b"@example.com"), (b"xy", b"z@mail.example.org"), (b"q.", b"@[10.1.2.3]")):
+                out += [pre + b"a" + bytes([c2]) + suf, pre + b"b" + bytes([bad]) + suf]
+        c2 = 0x2d + k                                       # a label ending in '-' against the same label with a letter there
+        if 0x41 <= c2 <= 0x5a or 0x61 <= c2 <= 0x7a:
+            for pre, suf in ((b"user@exampl", b".com"), (b"u@a.b", b".cd.org")):
+                out += [pre + b"a" + bytes([c2]) + suf, pre + b"b-" + suf]
     return out
 
 
